@@ -171,6 +171,55 @@ func (g *Gen) genFacts() {
 	}
 	sb.WriteString("/-- Assignments to (or address-of) package-level variables outside `init`: (site, function, variable). -/\n")
 	fmt.Fprintf(&sb, "def lateGlobalWrites : List (String × String × String) := [\n%s\n]\n\n", strings.Join(writes, ",\n"))
+	// exported encodings: package-level vars initialised as <pkg>.NewEncoding(<const>).WithPadding(<const>)
+	var encs []string
+	for _, k := range sortedKeys(g.pkgs) {
+		p := g.pkgs[k]
+		for _, f := range p.Syntax {
+			for _, d := range f.Decls {
+				gd, ok := d.(*ast.GenDecl)
+				if !ok || gd.Tok != token.VAR {
+					continue
+				}
+				for _, spec := range gd.Specs {
+					vs := spec.(*ast.ValueSpec)
+					if len(vs.Names) != 1 || len(vs.Values) != 1 {
+						continue
+					}
+					outer, ok := vs.Values[0].(*ast.CallExpr)
+					if !ok || len(outer.Args) != 1 {
+						continue
+					}
+					osel, ok := outer.Fun.(*ast.SelectorExpr)
+					if !ok || osel.Sel.Name != "WithPadding" {
+						continue
+					}
+					inner, ok := osel.X.(*ast.CallExpr)
+					if !ok || len(inner.Args) != 1 {
+						continue
+					}
+					isel, ok := inner.Fun.(*ast.SelectorExpr)
+					if !ok || isel.Sel.Name != "NewEncoding" {
+						continue
+					}
+					fn, ok := p.TypesInfo.Uses[isel.Sel].(*types.Func)
+					if !ok {
+						continue
+					}
+					alpha, ok1 := g.constStrInfo(p.TypesInfo, inner.Args[0])
+					padTV, ok2 := p.TypesInfo.Types[outer.Args[0]]
+					if !ok1 || !ok2 || padTV.Value == nil {
+						g.failf("%s: encoding %s is not built from constants", g.pos(vs.Pos()), vs.Names[0].Name)
+						continue
+					}
+					encs = append(encs, fmt.Sprintf("  (%s, %s, %s, %s, (%s : Int))", strLit(k), strLit(vs.Names[0].Name), strLit(fn.Pkg().Path()),
+						bytesLit([]byte(alpha)), padTV.Value.ExactString()))
+				}
+			}
+		}
+	}
+	sb.WriteString("/-- Package-level encodings `X = <pkg>.NewEncoding(alphabet).WithPadding(pad)`: (package, var, constructor package, alphabet, padding rune; -1 = none). -/\n")
+	fmt.Fprintf(&sb, "def encodings : List (String × String × String × Bytes × Int) := [\n%s\n]\n\n", strings.Join(encs, ",\n"))
 	sb.WriteString("end GoCrypt.Gen.Facts\n")
 	g.emit("Facts.lean", sb.String())
 }
